@@ -827,6 +827,29 @@ func rulesC14(c *Ctx) {
 			}
 		}
 		c.Check(okCtx, "middleware:context-carries-verifier-value", hl, nil, "the request context carries verify's TokenInfo under tokenInfoKey{}")
+		// ... and the accessor hands it out as stored: it tests nothing but presence (a second look at the expiration, without
+		// the middleware's clock skew, hides from the handler a token the middleware just admitted)
+		tic := c.Fn("auth", "", "TokenInfoFromContext")
+		tg := tic.Graph()
+		nCond := 0
+		for _, cv := range tg.condVertices() {
+			cond := tg.Node(cv - 1).(ast.Expr)
+			if _, _, isNil := NilTest(cond); isNil {
+				continue
+			}
+			if id, isID := ast.Unparen(cond).(*ast.Ident); isID {
+				if b, isB := tic.TypeOf(id).Underlying().(*types.Basic); isB && b.Info()&types.IsBoolean != 0 {
+					continue // the comma-ok of the type assertion
+				}
+			}
+			if inner, neg := stripNot(cond); neg {
+				if _, isID := ast.Unparen(inner).(*ast.Ident); isID {
+					continue
+				}
+			}
+			nCond++
+		}
+		c.Check(nCond == 0, "TokenInfoFromContext:hands-out-what-was-stored", tic, nil, "TokenInfoFromContext decides by presence only (%d other tests)", nCond)
 		// challenge
 		nChal := 0
 		for _, call := range hl.AllCalls(hl.Body, false) {
